@@ -74,8 +74,12 @@ RULES = {
     "has a shape is asked with `is None` - never by truthiness of an `Attr.value` (Any) or of a sized IR object: `if attr.value` takes the "
     "declared default 0 / 0.0 / '' / [] of a function's attribute parameter for no default, so the inliner drops the `@attr` reference "
     "and the inlined operator computes with its own schema default (Softmax over axis -1 instead of 0)",
+    "R17": "an alias is the domain it stands for: a pass function that deletes entries of `<graph>.opset_imports` decides which ones by "
+    "comparing their keys with the domains of nodes and functions - the IR spells the default domain '' there, while an import may "
+    "be keyed `ai.onnx` - so the function handles the alias (it names the constant 'ai.onnx' or passes the key through a domain "
+    "normaliser) before the comparison; a plain `set(opset_imports) - used_domains` deletes the import every ONNX operator of the model needs",
 }
-FLOORS = {"R1": 5, "R2": 6, "R3": 8, "R4": 6, "R5": 8, "R6": 2, "R7": 1, "R8": 10, "R9": 1, "R10": 3, "R11": 1, "R12": 2, "R13": 2, "R14": 2, "R15": 2, "R16": 100}
+FLOORS = {"R1": 5, "R2": 6, "R3": 8, "R4": 6, "R5": 8, "R6": 2, "R7": 1, "R8": 10, "R9": 1, "R10": 3, "R11": 1, "R12": 2, "R13": 2, "R14": 2, "R15": 2, "R16": 100, "R17": 1}
 EXPLANATION = (
     "Four structural necessary conditions of semantic preservation that the pass mechanisms rely on: guarded removal, "
     "interface-size preservation (call-site scan with receiver typing), data-dependence of the equivalence keys on all "
@@ -1207,7 +1211,30 @@ def rule_r16(ctx):
     ctx.require(n >= 100, f"only {n} typed truthiness tests found in the pass modules")
 
 
+def rule_r17(ctx):
+    n = 0
+    for m in ctx.repo.pkg_modules():
+        if not m.name.startswith("onnx_ir.passes") or m.name.endswith("_test"):
+            continue
+        for f in ctx.repo.live(m.all_funcs):
+            if isinstance(f.node, ast.Lambda):
+                continue
+            dels = [d for d in own_nodes(f.node) if (isinstance(d, ast.Delete) and any(isinstance(t, ast.Subscript) and norm(t.value).endswith(".opset_imports") for t in d.targets))
+                    or (isinstance(d, ast.Call) and isinstance(d.func, ast.Attribute) and d.func.attr == "pop" and norm(d.func.value).endswith(".opset_imports"))]
+            for d in dels:
+                n += 1
+                handles = any(isinstance(x, ast.Constant) and x.value == "ai.onnx" for x in ast.walk(f.node)) or any(
+                    isinstance(x, ast.Call) and "normalize_domain" in (dotted_of(x.func) or "") for x in ast.walk(f.node))
+                ctx.check("R17", f"{f.local}: opset imports are deleted only after the alias of the default domain was accounted for", handles, f, d,
+                          f"`{norm(d)[:60]}` removes opset imports that were selected by comparing their keys with node / function domains as they are: the import of the default "
+                          "domain can be keyed `ai.onnx` while every node spells it '', so it is taken for unused and deleted - the model keeps no opset import for its ONNX operators",
+                          how="functions of the pass modules that delete from <x>.opset_imports mention the alias constant or a domain normaliser",
+                          construct=f"opset imports compared with node domains without the alias in {f.local}")
+    ctx.require(n >= 1, "no pass deletes opset imports (RemoveUnusedOpsetsPass expected)")
+
+
 def run(ctx):
+    rule_r17(ctx)
     rule_r16(ctx)
     rule_r15(ctx)
     rule_r14(ctx)
